@@ -9,3 +9,5 @@ import OlVerif.Props.C14
 #print axioms OlVerif.C14.import_program
 #print axioms OlVerif.C14.ol_step_loaded
 #print axioms OlVerif.C14.ol_run_loaded
+#print axioms OlVerif.C14.lower_import_plan
+#print axioms OlVerif.C14.plan_is_model
